@@ -27,6 +27,9 @@ pub struct VecCall<T: Elem> {
     pub salt: u64,
     /// Library calls performed per evaluation of this case (searches that run it several times).
     pub weight: u64,
+    /// Pass the *same* slice as `a` and as `b` (only meaningful when `b` has the contents of `a`): a placement in which
+    /// the two inputs share their storage.
+    pub alias_b: bool,
 }
 
 impl<T: Elem> VecCall<T> {
@@ -39,6 +42,7 @@ impl<T: Elem> VecCall<T> {
             b: Vec::new(),
             res_len: 0,
             place: [Place::End; 3],
+            alias_b: false,
             poison: 0xA5,
             prefill: 0xC3C3_C3C3_C3C3_C3C3,
             salt: 0,
@@ -195,7 +199,7 @@ impl<T: Elem> VecCall<T> {
                 pr.add(i).write(fill);
             }
             let sa: &[T] = std::slice::from_raw_parts(pa, la);
-            let sb: &[T] = std::slice::from_raw_parts(pb, lb);
+            let sb: &[T] = if self.alias_b && lb == la && lb > 0 { sa } else { std::slice::from_raw_parts(pb, lb) };
             let sr: &mut [T] = std::slice::from_raw_parts_mut(pr, lr);
             if self.r.safe {
                 set_mask(self.mask);
